@@ -379,3 +379,35 @@ func LayoutEncodeRawID(b *Binding, v *ref.Vals) *vk.Violation {
 	}
 	return nil
 }
+
+// LayoutEncodeReused: one PDU VALUE is used for two messages - filled with v1 and encoded, then every
+// member is set to v2 and it is encoded again (a sender that keeps one value per connection, or per part
+// of a long message). The second image must be what a fresh value with the contents v2 encodes to (which
+// LayoutEncode compares with the specification): nothing of the first message, and nothing the first
+// encode left in the value, may show.
+func LayoutEncodeReused(b *Binding, v1, v2 *ref.Vals) *vk.Violation {
+	s := b.Spec
+	v2 = Normalise(b, v2)
+	var fresh, img []byte
+	var e1, e2 error
+	c := b.Fill(v1)
+	if pn := guard("layout-reused", b, v2, nil, func() {
+		_, _ = c.IEncode()
+		b.FillInto(c, v2, false)
+		img, e2 = c.IEncode()
+		fresh, e1 = b.Fill(v2).IEncode()
+	}); pn != "" {
+		return vk.Violf(s.ID()+"/layout/reused-value/panic", mkCase(b, v2, "value used for another message before", nil), "%s: panic\n%s", s.ID(), pn)
+	}
+	if e1 != nil {
+		return nil // LayoutEncode's business
+	}
+	cs := mkCase(b, v2, "the value had been filled with other contents and encoded before", fresh)
+	if e2 != nil {
+		return vk.Violf(s.ID()+"/layout/reused-value/encode-error", cs, "%s: a value that was encoded with other contents before does not encode its present contents: %v", s.ID(), e2)
+	}
+	if d := SameImage(s, ref.MandatoryLen(s, v2), fresh, img); d != "" {
+		return vk.Violf(s.ID()+"/layout/reused-value", cs, "%s: a PDU value that had been encoded with other contents before encodes its present contents differently from a fresh value: %s\nreused %x\nfresh  %x", s.ID(), d, clip(img), clip(fresh))
+	}
+	return nil
+}
